@@ -319,6 +319,65 @@ fn tamper_at(p: &mut SP, class: &str, real_layer: Option<usize>, r: &mut ChaCha8
     }
 }
 
+fn resize<T: Clone>(v: &mut Vec<T>, surplus: bool, fill: T) -> Option<Value> {
+    let before = v.len();
+    if surplus {
+        let x = v.last().cloned().unwrap_or(fill);
+        v.push(x);
+    } else {
+        v.pop()?;
+    }
+    Some(json!({"len_before": before, "len_after": v.len()}))
+}
+/// shape classes: ONE list of an otherwise valid proof gets one surplus element / loses its last element
+fn shape_tamper(p: &mut SP, list: &str, surplus: bool, r: &mut ChaCha8Rng) -> Option<Value> {
+    let (base, arg) = split_class(list);
+    let zh = plonky2::hash::hash_types::HashOut::<F>::ZERO;
+    let ze = FE::ZERO;
+    let nreal = p.proof.opening_proof.commit_phase_merkle_caps.len();
+    let layer = arg.map(|l| model_layer(l, nreal));
+    match base {
+        "pis" => return resize(&mut p.public_inputs, surplus, F::ZERO),
+        "trace_cap" => return resize(&mut p.proof.trace_cap.0, surplus, zh),
+        "quot_cap" => return resize(&mut p.proof.quotient_polys_cap.as_mut()?.0, surplus, zh),
+        "op_local" => return resize(&mut p.proof.openings.local_values, surplus, ze),
+        "op_next" => return resize(&mut p.proof.openings.next_values, surplus, ze),
+        "op_quot" => return resize(p.proof.openings.quotient_polys.as_mut()?, surplus, ze),
+        _ => {}
+    }
+    let fp = &mut p.proof.opening_proof;
+    match base {
+        "final_poly" => resize(&mut fp.final_poly.coeffs, surplus, ze),
+        "commit_caps" => resize(&mut fp.commit_phase_merkle_caps, surplus, MerkleCap(vec![zh; 1])),
+        "commit_cap" => resize(&mut fp.commit_phase_merkle_caps.get_mut(layer?)?.0, surplus, zh),
+        "rounds" => {
+            let before = fp.query_round_proofs.len();
+            if surplus {
+                let x = fp.query_round_proofs.last()?.clone();
+                fp.query_round_proofs.push(x);
+            } else {
+                fp.query_round_proofs.pop()?;
+            }
+            Some(json!({"len_before": before, "len_after": fp.query_round_proofs.len()}))
+        }
+        "init_leaf" | "init_path" | "step_eval" | "step_path" => {
+            let nr = fp.query_round_proofs.len();
+            // never round 0 for the first initial path: the trace length is recovered from it (another statement)
+            let q = if nr > 1 { r.gen_range(1..nr) } else { 0 };
+            let round = &mut fp.query_round_proofs[q];
+            let mut d = match base {
+                "init_leaf" => resize(&mut round.initial_trees_proof.evals_proofs.get_mut(arg?)?.0, surplus, F::ZERO),
+                "init_path" => resize(&mut round.initial_trees_proof.evals_proofs.get_mut(arg?)?.1.siblings, surplus, zh),
+                "step_eval" => resize(&mut round.steps.get_mut(layer?)?.evals, surplus, ze),
+                _ => resize(&mut round.steps.get_mut(layer?)?.merkle_proof.siblings, surplus, zh),
+            }?;
+            d["round"] = json!(q);
+            Some(d)
+        }
+        _ => None,
+    }
+}
+
 fn prove_with(stark: Chain, cfg: &StarkConfig, rows: &[Vec<F>], pis: &[F], vparams: Option<FriParams>, k: Option<Knobs>) -> Result<SP, String> {
     if let Some(k) = k {
         verif_knobs::set(k);
@@ -489,6 +548,14 @@ fn run_scenario(s: &Value, selftest_all: bool) -> Vec<Value> {
                     let d = json!(format!("{k:?}"));
                     if let Ok(p) = prove_with(stark, &cfg, &rows, &pis, vparams.clone(), Some(k)) {
                         cases.push((p, d));
+                    }
+                }
+                _ if c.starts_with("shape:") => {
+                    if let Some((list, dir)) = c[6..].rsplit_once(':') {
+                        let mut p = honest.clone();
+                        if let Some(d) = shape_tamper(&mut p, list, dir == "surplus", &mut r) {
+                            cases.push((p, d));
+                        }
                     }
                 }
                 base => {
